@@ -266,6 +266,15 @@ func (c *fakeConn) snapshot() (received []byte, closeCount int, blocked int) {
 
 // ---------------------------------------------------------------- handler
 
+// fakeConnCW is a fakeConn that also offers CloseWrite (as unix and TLS connections do): a
+// half-close is not a close.
+type fakeConnCW struct {
+	*fakeConn
+	closeWrites atomic.Int32
+}
+
+func (c *fakeConnCW) CloseWrite() error { c.closeWrites.Add(1); return nil }
+
 var errHandler = errors.New("handler: bad frame")
 var errDeadline = errors.New("fake conn: use of closed network connection (set deadline)")
 
@@ -396,10 +405,15 @@ func faultCase(k *engine.Case) {
 			x.ended = true
 			k.Count("sessions_dead_on_arrival", 1)
 		}
+		var nc net.Conn = x.conn
+		if r.Intn(4) == 0 {
+			nc = &fakeConnCW{fakeConn: x.conn}
+			k.Count("sessions_on_conn_with_closewrite", 1)
+		}
 		if r.Intn(2) == 0 && !x.conn.noReadDl {
-			mgr.Do(x.conn)
+			mgr.Do(nc)
 		} else {
-			x.s = stcp.NewSession(mgr, x.conn)
+			x.s = stcp.NewSession(mgr, nc)
 			x.s.Start()
 			x.s.Start() // Start is idempotent
 		}
@@ -1077,7 +1091,47 @@ func serverCase(k *engine.Case) {
 			x.accepted = true
 		case rerr != nil:
 			if ne, ok := rerr.(net.Error); ok && ne.Timeout() {
-				k.Inconclusive("client read timed out (loaded machine)")
+				// 20 s of silence on a connection the server should have closed (at its
+				// limit) or greeted. Decide by order, not by time: the accept loop takes
+				// connections in arrival order, so once a connection dialled later has been
+				// greeted, this one has been through the accept branch; a surplus connection
+				// that was handled has been closed, and the close arrives before anything
+				// sent later on the loop-back.
+				verdict := "client read timed out (loaded machine)"
+				served := 0
+				for _, y := range cls {
+					if y.accepted {
+						served++
+					}
+				}
+				if served == m && m > 0 {
+					for _, y := range cls {
+						if y.accepted {
+							y.c.Close() // make room for one more session
+							break
+						}
+					}
+					wait := time.Now().Add(20 * time.Second)
+					for int(h.mgr.ConnCount()) >= m && time.Now().Before(wait) {
+						time.Sleep(2 * time.Millisecond)
+					}
+					if c2, derr := net.DialTimeout("tcp", addr, 5*time.Second); derr == nil {
+						c2.SetReadDeadline(time.Now().Add(20 * time.Second))
+						var b2 [1]byte
+						if n2, _ := c2.Read(b2[:]); n2 == 1 && b2[0] == 'A' {
+							c.SetReadDeadline(time.Now().Add(3 * time.Second))
+							_, rerr2 := c.Read(b[:])
+							if ne2, ok := rerr2.(net.Error); ok && ne2.Timeout() {
+								verdict = ""
+								k.Fail("surplus-not-closed", "WithMaxConn(%d) with %d sessions alive: a further connection was neither closed nor served, although a connection dialled after it has meanwhile been accepted and greeted (the accept loop has been past it)", m, m)
+							}
+						}
+						c2.Close()
+					}
+				}
+				if verdict != "" {
+					k.Inconclusive(verdict)
+				}
 				for _, y := range cls {
 					y.c.Close()
 				}
